@@ -109,8 +109,15 @@ pub fn c17_case(rs: u64, _nonce: u64, replay: Option<Vec<u32>>) -> CaseOutcome {
     // A junction without DC support has no port times: what lies behind which of its ports cannot
     // be measured by anybody. Junction devices (couplers) are DC capable here; devices with at most
     // two ports may lack DC.
+    // In a separate class (gen >= 2) junctions may lack DC support all the same: nothing can be
+    // said about exact delays then, but the tree, the ports, the offsets, the reference clock and
+    // "never decreases in frame-processing order" are still required.
+    let non_dc_junctions = crate::tape::gen() >= 2 && !all_dc && shape != 0 && shape != 3 && t.flag(30, 100, "non_dc_junctions");
     let mut specs = specs;
     for i in 0..n {
+        if non_dc_junctions {
+            break;
+        }
         if seg.devices[i].port_open.iter().filter(|p| **p).count() >= 3 && !specs[i].dc_supported() {
             specs[i].support_flags |= 0x0004 | 0x0100;
             let f = specs[i].support_flags;
@@ -176,6 +183,8 @@ pub fn c17_case(rs: u64, _nonce: u64, replay: Option<Vec<u32>>) -> CaseOutcome {
     out.probes.insert(format!("shape_{}", ["chain", "forks", "crosses_nested", "scripted"][shape]), 1);
     let nested = (0..n).any(|i| w.sim.seg.devices[i].port_open.iter().filter(|p| **p).count() >= 3 && parent[i].map_or(false, |(p, _)| w.sim.seg.devices[p].port_open.iter().filter(|x| **x).count() >= 3));
     out.probes.insert("nested_junctions".into(), nested as u64);
+    let non_dc_junction_present = (0..n).any(|i| w.sim.seg.devices[i].port_open.iter().filter(|p| **p).count() >= 3 && !specs[i].dc_supported());
+    out.probes.insert("junction_without_dc_support".into(), non_dc_junction_present as u64);
     out.probes.insert("non_dc_between_dc".into(), (dc.len() >= 2 && (dc[0]..*dc.last().unwrap()).any(|i| !specs[i].dc_supported())) as u64);
     let finish = |mut out: CaseOutcome, w: &World| {
         out.tape = w.sim.tape.consumed_values();
